@@ -329,6 +329,10 @@ func forwardsError(h *ssa.Function, p ssa.CallInstruction) bool {
 					continue
 				}
 			}
+			// another error that is known to be non-nil on this path
+			if definitelyNonNilReturn(h, r) {
+				continue
+			}
 			ok = false
 		}
 		return false // keep searching: every such return must qualify
